@@ -87,7 +87,8 @@ REGISTRY["C03"] = {
                    "gateway in front of each incoming flow), answered in any order - in particular several tokens on one incoming flow before anything arrived on another; "
                    "equal and unequal numbers per flow (tokens without a partner stay at the gateway, the instance does not complete). TestC03Wide: joins with 31..130 incoming flows (around and beyond 32 / 64), 1..3 branch tasks held back at drawn positions (the last declared, the first declared, anywhere): nothing before the last of them is answered, one token afterwards. "
                    "TestC03Edited: a parsed model with N declared branches of which K1 are wired at the fork and the join; one instance runs, the gateways' outgoing / incoming lists are "
-                   "changed in code to K2 branches, a second instance is created from the same in-memory model and must fork and join K2 ways."),
+                   "changed in code to K2 branches, a second instance is created from the same in-memory model and must fork and join K2 ways. "
+                   "TestC03Burst: 2..10 tokens per incoming flow reach one parallel gateway (pure fork, or join of two flows) in a burst - the tasks in front of it are answered at the same moment: exactly K x M requests behind it, then completion."),
     "level_note": LOCKSTEP_TRUST,
     "technique": "bounded-exhaustive enumeration + rapid property test, lock-step differential against a token-game model",
     "rule": ("start -> fork(1->N) -> N tasks -> gateway under test (N->M) -> M tasks -> join(M->1) -> end, optionally inside a loop for re-entry. "
@@ -99,6 +100,7 @@ REGISTRY["C03"] = {
         {"name": "TestC03Skew", "checks": {"quick": 60, "thorough": 1500}, "shards": {"quick": 8, "thorough": 16}, "gomaxprocs": [4, 1, 2, 16]},
         {"name": "TestC03Wide", "checks": {"quick": 8, "thorough": 150}, "shards": {"quick": 4, "thorough": 16}},
         {"name": "TestC03Edited", "checks": {"quick": 60, "thorough": 1500}, "shards": {"quick": 4, "thorough": 8}},
+        {"name": "TestC03Burst", "checks": {"quick": 60, "thorough": 1500}, "shards": {"quick": 4, "thorough": 8}, "gomaxprocs": [16, 4, 2, 1]},
     ],
 }
 
